@@ -58,6 +58,21 @@ def run_shard(ctx):
         seed = rng.randrange(1 << 40)
         r2 = random.Random(seed)
         ns = GN.gen_namespace(r2)
+        mirror = None
+        names = [r["name"] for r in ns["roots"]]
+        if len(set(names)) >= 2 and r2.random() < 0.6:
+            # two root namespaces that hold a definition at the SAME relative location (sub-namespace path, file name): two
+            # definitions, two composites - and a target subset that asks for both
+            cand = [i for i, d in enumerate(ns["defs"]) if d["kind"] == "msg"]
+            if cand:
+                i0 = r2.choice(cand)
+                d0 = ns["defs"][i0]
+                others = [j for j, nm in enumerate(names) if nm != names[d0["root"]]]
+                j = r2.choice(others)
+                if not any(x["root"] == j and x["ns"] == d0["ns"] and x["short"].lower() == d0["short"].lower() for x in ns["defs"]):
+                    twin = dict(d0, root=j, refs=[], id=d0["id"] + 500000, extra=[], ns=list(d0["ns"]))
+                    ns["defs"].append(twin)
+                    mirror = (i0, len(ns["defs"]) - 1)
         base = (work / ("t%d" % k)).resolve()
         paths = GN.write_namespace(ns, base)
         root = str(base / ns["roots"][0]["dir"])
@@ -76,6 +91,9 @@ def run_shard(ctx):
         for g in range(2):
             m = r2.randrange(1, min(4, len(ns["defs"])) + 1)
             subsets.append(sorted(r2.sample(range(len(ns["defs"])), m)))
+        if mirror:
+            subsets.append(sorted(mirror))
+            ctx.cls("mirror-twin-targets")
         for gi, sub in enumerate(subsets):
             for si in range(p["shuffles"]):
                 how = sp[si % len(sp)]
